@@ -57,4 +57,17 @@ CLAIMED.update({
     },
 })
 
+CLAIMED.update({
+    "C07": {
+        "text": "Theorem inv_history: for every schema whose group indices are in range, every instance satisfying the oneof invariant (fresh instances and constructor calls naming ≤ 1 member "
+                "per group do) and EVERY finite sequence of operations — assignment of any value to any field, attribute reads, decoding of ANY byte string into the instance, instance from_dict, "
+                "copy, deepcopy, pickle round trip, observers — the invariant 'every member of a group other than the selected one is unset' holds afterwards (induction over the history, "
+                "one preservation lemma per operation). Corollaries: assigning a member (its default included) selects it; reading any other member raises; an unselected member contributes "
+                "no bytes to the encoding. The JSON half (to_dict keys) is checked by the oracle on the implementation.",
+        "note": TB + "constructor calls naming two members of one group are outside the property's domain (\"the member set last\" is undefined); to_dict output is observed, modelled under C04.",
+        "technique": "Lean 4 proof (state-machine invariant, induction over operation histories) + lock-step differential correspondence of random histories",
+        "design_ref": "DESIGN.md §7 C07",
+    },
+})
+
 NOT_CLAIMED = {}
